@@ -1,5 +1,6 @@
 pub mod c04;
 pub mod c05;
+pub mod c06;
 pub mod c19;
 pub mod c20;
 
@@ -11,6 +12,7 @@ pub fn run(ctx: &Ctx, sink: &mut Sink) -> bool {
         "C04" => c04::run_prop(ctx, sink),
         "C19" => c19::run_prop(ctx, sink),
         "C20" => c20::run_prop(ctx, sink),
+        "C06" => c06::run_prop(ctx, sink),
         "C05" => c05::run_prop(ctx, sink),
         _ => return false,
     }
